@@ -39,7 +39,7 @@ type Case struct {
 	Ops  []Op `json:"ops"`
 }
 
-var vias = []string{"id", "op", "lit", "dot", "call", "add", "index", "qual"}
+var vias = []string{"id", "op", "lit", "dot", "call", "add", "index", "qual", "tag", "tag"}
 
 func genCase(maxOps int) func(t *rapid.T) Case {
 	return func(t *rapid.T) Case {
@@ -102,6 +102,29 @@ func render(s *jen.Statement) ([]string, error) {
 	return toks[2:], nil
 }
 
+func scanLine(line string) ([]string, error) {
+	src := []byte(line)
+	fs := token.NewFileSet()
+	file := fs.AddFile("", fs.Base(), len(src))
+	var sc scanner.Scanner
+	sc.Init(file, src, nil, 0)
+	var toks []string
+	for {
+		_, tok, lit := sc.Scan()
+		if tok == token.EOF {
+			break
+		}
+		if tok == token.SEMICOLON && lit == "\n" {
+			continue
+		}
+		if lit == "" {
+			lit = tok.String()
+		}
+		toks = append(toks, lit)
+	}
+	return toks, nil
+}
+
 func check(c Case) error {
 	counter := 0
 	next := func() string { counter++; return fmt.Sprintf("t%d", counter) }
@@ -128,6 +151,10 @@ func check(c Case) error {
 			a, b := next(), next()
 			s.Call(jen.Id(a), jen.Id(b))
 			return []string{"(", a, ",", b, ")"}
+		case "tag":
+			a := next()
+			s.Tag(map[string]string{"k": a})
+			return []string{"`k:\"" + a + "\"`"}
 		case "index":
 			a := next()
 			s.Index(jen.Id(a))
@@ -169,7 +196,46 @@ func check(c Case) error {
 		}
 		return append(append([]string{}, x.snap...), x.own...)
 	}
+	// second observation channel: one File that holds every statement (added when it is created)
+	// and is rendered after every step — what a File remembers between renders must not go stale
+	pf := jen.NewFile("p")
+	pf.NoFormat = true
+	pf.Add(orig)
+	renderAll := func() ([][]string, error) {
+		buf := &bytes.Buffer{}
+		if err := pf.Render(buf); err != nil {
+			return nil, err
+		}
+		var out [][]string
+		for _, line := range strings.Split(strings.TrimPrefix(buf.String(), "package p\n\n"), "\n") {
+			if strings.TrimSpace(line) == "" {
+				continue
+			}
+			toks, err := scanLine(line)
+			if err != nil {
+				return nil, err
+			}
+			out = append(out, toks)
+		}
+		return out, nil
+	}
 	verify := func(step int, what string) error {
+		if c.Init > 0 {
+			lines, err := renderAll()
+			if err != nil {
+				return fmt.Errorf("step %d (%s): File holding all statements: %v", step, what, err)
+			}
+			if len(lines) != len(list) {
+				return fmt.Errorf("step %d (%s): the File holding all %d statements renders %d lines", step, what, len(list), len(lines))
+			}
+			for i := range list {
+				g := strings.Join(lines[i], " ")
+				l, sn := strings.Join(live(i), " "), strings.Join(snapshot(i), " ")
+				if g != l && g != sn {
+					return fmt.Errorf("step %d (%s): in a File rendered after every step, statement %d (parent %d) renders %q; want %q or %q", step, what, i, list[i].parent, g, l, sn)
+				}
+			}
+		}
 		for i, x := range list {
 			got, err := render(x.s)
 			if err != nil {
@@ -197,6 +263,7 @@ func check(c Case) error {
 			}
 			cl := list[i].s.Clone()
 			list = append(list, &st{s: cl, parent: i, snap: cur})
+			pf.Add(cl)
 			got, err := render(cl)
 			if err != nil {
 				return err
@@ -279,7 +346,7 @@ func classify(r *hx.Run, c Case) {
 func TestC20(t *testing.T) {
 	r := hx.Start(t, "C20")
 	defer r.Finish(t)
-	r.Rule("rapid-generated histories of append/clone operations (appends via Id, Op, Lit, Dot, Call, Index, Qual, Add with 0..9 items); non-trivial = the history has a clone taken when its original had >= 3 items, followed by appends to both the original and that clone; distinct by the full history")
+	r.Rule("rapid-generated histories of append/clone operations (appends via Id, Op, Lit, Dot, Call, Index, Qual, Tag, Add with 0..9 items; every statement is rendered on its own through a fresh File and, as a line of one File that holds all statements and is rendered after every step); non-trivial = the history has a clone taken when its original had >= 3 items, followed by appends to both the original and that clone; distinct by the full history")
 	r.Assume("go/scanner token stream of a NoFormat File render is taken as 'the rendering' of a statement")
 	maxOps := 60
 	if r.Thorough() {
